@@ -39,6 +39,18 @@ def _subst(t, mapping):
     return tuple(_subst(x, mapping) for x in t)
 
 
+def _player_count_of(x: Term, p: Term, conds: list) -> bool:
+    """x is the player count of the argument p (a game or a number) on the alternative chosen under `conds`: p itself where p is not a game,
+    p.number_of_players where it is one."""
+    game_tests = [taken for t, taken in conds if is_call_to(t, "isinstance") and len(t[2]) == 2 and t[2][0] == p and show(t[2][1]).endswith(("Game", "Game)"))]
+    int_tests = [taken for t, taken in conds if is_call_to(t, "isinstance") and len(t[2]) == 2 and t[2][0] == p and show(t[2][1]).endswith("int")]
+    if x == p:
+        return True not in game_tests and False not in int_tests
+    if x == ("attr", p, "number_of_players"):
+        return False not in game_tests and True not in int_tests and bool(game_tests or int_tests)
+    return False
+
+
 def _alternatives(t: Term) -> list[tuple[list, Term]]:
     """Split phi/ifexp nodes: [(conditions taken, phi-free term)]."""
     if not isinstance(t, tuple):
@@ -81,6 +93,21 @@ def rule_k3_operators(prog: Program, col: Collector) -> None:
         "__add__": ("set", lambda a, A, X: A | X),
         "__contains__": ("pred", lambda a, A, X: a.subset(X, A)),
     }
+    # a coalition is a value: hashed and compared by its id, shared between containers, caches and aliases - the id is written once
+    writers = []
+    for mname, mref in mm.items():
+        if mname in ("__init__", "__new__", "__post_init__"):
+            continue
+        for e in list(fterms(prog, mref).of_kind("store")) + list(fterms(prog, mref).of_kind("aug")):
+            if e.data.get("attr") == "id" and e.data.get("obj") is not None and e.data["obj"][0] == "param":
+                writers.append((mref, e))
+    col.check(not writers, writers[0][0].where(writers[0][1].node) if writers else mm["__init__"].where() if "__init__" in mm else "coalitions.Coalition",
+              writers[0][0].short if writers else "coalitions.Coalition",
+              "no method of Coalition changes an id after construction (found: " + ", ".join(sorted({w[0].node.name for w in writers})) + ")" if writers
+              else "no method of Coalition changes an id after construction",
+              construct="coalition-mutated-in-place",
+              necessity="coalitions hash and compare by id and are shared (dict keys, sets, cached singletons, aliases such as `c = T`): an operator that updates the id in place "
+                        "changes every alias, loses the object in the sets that hold it, and corrupts a shared singleton for the rest of the process")
     for name, (kind, spec) in specs.items():
         ref = mm.get(name)
         if ref is None:
@@ -175,7 +202,14 @@ def rule_k3_operators(prog: Program, col: Collector) -> None:
         p = ("param", ref.positional_params()[0])
         rv = list(ft.of_kind("return"))
         ok = False
-        if len(rv) == 1 and is_call_to(rv[0].value, COAL) and len(rv[0].value[2]) == 1:
+        if want == "grand":
+            alts = _alternatives(ft.result())
+            ok = bool(alts)
+            for conds, alt in alts:
+                x = alt[2][0] if is_call_to(alt, COAL) and len(alt[2]) == 1 else ("unknown",)
+                ok = ok and x[0] == "bin" and x[1] == "-" and x[3] == ("const", 1) and x[2][0] == "bin" and \
+                    ((x[2][1] == "**" and x[2][2] == ("const", 2)) or (x[2][1] == "<<" and x[2][2] == ("const", 1))) and _player_count_of(x[2][3], p, conds)
+        elif len(rv) == 1 and is_call_to(rv[0].value, COAL) and len(rv[0].value[2]) == 1:
             x = rv[0].value[2][0]
             if want == "singleton":
                 ok = x in (("bin", "**", ("const", 2), p), ("bin", "<<", ("const", 1), p))
@@ -201,6 +235,24 @@ def rule_k3_operators(prog: Program, col: Collector) -> None:
             single = e.value in (("bin", "**", ("const", 2), x), ("bin", "<<", ("const", 1), x))
             dedup = is_call_to(it, "set", "frozenset") or e.op == "|"
             ok = ok or (single and dedup)
+        # the same fold written as an expression: sum(2**p for p in set(players)) / reduce(lambda id, p: id + 2**p, set(players), 0) / reduce(or_, ...)
+        from .common import comp_parts
+        for r in ft.of_kind("return"):
+            for t in subterms(r.value):
+                fold = None
+                if is_call_to(t, "sum") and len(t[2]) == 1:
+                    fold = ("+", t[2][0])
+                elif is_call_to(t, "functools.reduce") and len(t[2]) == 3 and t[2][2] == ("const", 0) and t[2][0][0] == "lambda" and len(t[2][0][1]) == 2:
+                    acc, x = t[2][0][1]
+                    body = t[2][0][2]
+                    if body[0] == "bin" and body[1] in ("+", "|") and body[2] == acc and body[3] in (("bin", "**", ("const", 2), x), ("bin", "<<", ("const", 1), x)):
+                        ok = ok or body[1] == "|" or is_call_to(t[2][1], "set", "frozenset")
+                elif is_call_to(t, "functools.reduce") and len(t[2]) == 3 and t[2][2] == ("const", 0) and t[2][0] == ("global", "operator.or_"):
+                    fold = ("|", t[2][1])
+                if fold is not None:
+                    cp = comp_parts(fold[1])
+                    if cp is not None and not cp[3] and cp[0] in (("bin", "**", ("const", 2), cp[1]), ("bin", "<<", ("const", 1), cp[1])):
+                        ok = ok or fold[0] == "|" or is_call_to(cp[2], "set", "frozenset")
         col.check(ok, ref.where(), ref.short, "from_players: id = union of 2**p over the DISTINCT players (set(...) or |=)", construct="from_players",
                   necessity="adding 2**p twice for a repeated player carries into another player's bit")
     # players / __len__: digit scan over the whole (unbounded) id
@@ -590,11 +642,15 @@ def rule_e_enum(prog: Program, col: Collector) -> None:
         rv[0].value[2][0] in (("bin", "**", ("const", 2), npar), ("bin", "<<", ("const", 1), npar))
     col.check(ok, ref.where(), ref.short, "get_all_coalitions(n) = arange(2**n) (ids in ascending order)", construct="all-ids", necessity=NEC)
     ref = prog.func("coalitions.all_coalitions")
-    rv = list(fterms(prog, ref).of_kind("return"))
     from .common import comp_parts
-    cp0 = comp_parts(rv[0].value) if len(rv) == 1 else None
-    ok = cp0 is not None and cp0[0] == ("call", ("global", COAL), (cp0[1],), ()) and not cp0[3] and is_call_to(cp0[2], "range") and len(cp0[2][2]) == 1 and \
-        cp0[2][2][0][0] == "bin" and cp0[2][2][0][1] == "**" and cp0[2][2][0][2] == ("const", 2)
+    apar = ("param", ref.positional_params()[0])
+    res = fterms(prog, ref).result()          # one formula: a branch per kind of argument (game / player count) is an alternative of it
+    alts = _alternatives(res)
+    ok = bool(alts)
+    for conds, alt in alts:
+        cp0 = comp_parts(alt)
+        ok = ok and cp0 is not None and cp0[0] == ("call", ("global", COAL), (cp0[1],), ()) and not cp0[3] and is_call_to(cp0[2], "range") and len(cp0[2][2]) == 1 and \
+            cp0[2][2][0][0] == "bin" and cp0[2][2][0][1] == "**" and cp0[2][2][0][2] == ("const", 2) and _player_count_of(cp0[2][2][0][3], apar, conds)
     col.check(ok, ref.where(), ref.short, "all_coalitions = Coalition(i) for i in range(2**n) (id order = table row order)", construct="all-obj", necessity=NEC)
     # size / players in id representation
     for fname in ("coalition_ids.get_size", "coalition_ids.players"):
